@@ -27,10 +27,12 @@ struct Outcome {
     rounds_done: u32,
     fixpoint: bool,
     reached_compare: bool,
+    /// the until-EOF fields were cut back before a rebuild (Switches::trim_unbounded)
+    trimmed: bool,
     file_len: usize,
 }
 
-fn parse_root(bytes: &[u8], stage: &str) -> Result<Box<wow_adt::api::RootAdt>, Fail> {
+fn parse_root(bytes: &[u8], stage: &str, last_sub: Option<&str>) -> Result<Box<wow_adt::api::RootAdt>, Fail> {
     let r = guard("parse_adt", || parse_adt(&mut Cursor::new(bytes)))?;
     match r {
         Ok(ParsedAdt::Root(r)) => Ok(r),
@@ -41,7 +43,13 @@ fn parse_root(bytes: &[u8], stage: &str) -> Result<Box<wow_adt::api::RootAdt>, F
         Err(e) => {
             let es = e.to_string();
             let cls = vcheck::engine::normalise_msg(&es);
-            Err(Fail::new(format!("parse-error:{}", cls), format!("[{stage}] parse_adt failed on {} bytes: {es}", bytes.len())))
+            // what the file ends with is the one structural fact that distinguishes the known
+            // "reads past the last sub-chunk" class from any other parse failure
+            let ctx = last_sub.unwrap_or("?");
+            Err(Fail::new(
+                format!("parse-error:file-ends-with-{ctx}:{cls}"),
+                format!("[{stage}] parse_adt failed on {} bytes (last sub-chunk of the file: {ctx}): {es}", bytes.len()),
+            ))
         }
     }
 }
@@ -69,6 +77,39 @@ fn growth_fails(stage: &str, prev_len: usize, len: usize, prev: Option<&walk::Si
     out
 }
 
+/// element counts that were written for the six fields the parser reads "until end of file"
+struct TrimLens {
+    mtxf: usize,
+    mtxp: usize,
+    mbmh: usize,
+    mbbb: usize,
+    mbnv: usize,
+    mbmi: usize,
+}
+
+/// Cut the until-EOF fields back to what was written (see Switches::trim_unbounded). Returns
+/// whether anything was cut.
+fn trim(root: &mut wow_adt::api::RootAdt, l: &TrimLens) -> bool {
+    let mut cut = false;
+    macro_rules! t {
+        ($field:ident, $vec:ident, $n:expr) => {
+            if let Some(x) = root.$field.as_mut() {
+                if x.$vec.len() > $n {
+                    x.$vec.truncate($n);
+                    cut = true;
+                }
+            }
+        };
+    }
+    t!(texture_flags, flags, l.mtxf);
+    t!(texture_params, entries, l.mtxp);
+    t!(blend_mesh_headers, entries, l.mbmh);
+    t!(blend_mesh_bounds, entries, l.mbbb);
+    t!(blend_mesh_vertices, vertices, l.mbnv);
+    t!(blend_mesh_indices, indices, l.mbmi);
+    cut
+}
+
 fn run_case(raw: &Case, rounds: u32) -> Outcome {
     let (case, removed) = raw.effective();
     let (class, nontrivial) = case.class();
@@ -81,10 +122,24 @@ fn run_case(raw: &Case, rounds: u32) -> Outcome {
         rounds_done: 0,
         fixpoint: false,
         reached_compare: false,
+        trimmed: false,
         file_len: 0,
     };
     let inputs = build::materialise(&case);
     let built_version = inputs.version;
+    let lens = TrimLens {
+        mtxf: inputs.mtxf.as_ref().map_or(case.n_tex as usize, |x| x.flags.len()),
+        mtxp: inputs.mtxp.as_ref().map_or(0, |x| x.entries.len()),
+        mbmh: inputs.mbmh.as_ref().map_or(0, |x| x.entries.len()),
+        mbbb: inputs.mbbb.as_ref().map_or(0, |x| x.entries.len()),
+        mbnv: inputs.mbnv.as_ref().map_or(0, |x| x.vertices.len()),
+        mbmi: inputs.mbmi.as_ref().map_or(0, |x| x.indices.len()),
+    };
+    let name_tables: [(&[u8; 4], Vec<Vec<u8>>); 3] = [
+        (b"MTEX", inputs.textures.iter().map(|s| s.as_bytes().to_vec()).collect()),
+        (b"MMDX", inputs.models.iter().map(|s| s.as_bytes().to_vec()).collect()),
+        (b"MWMO", inputs.wmos.iter().map(|s| s.as_bytes().to_vec()).collect()),
+    ];
     let mut want: Content = inputs.content();
     // the serializer documents that WotLK+ files always carry MTXF (zeros when none was given)
     if case.version >= 3 && case.mtxf == 0 {
@@ -133,7 +188,20 @@ fn run_case(raw: &Case, rounds: u32) -> Outcome {
             ));
         }
     }
-    let parsed0 = match parse_root(&bytes0, "built file") {
+    if let Some(w) = &w0 {
+        // the name tables, read by the walker itself (not by the crate's parser)
+        for (tab, want_names) in &name_tables {
+            let got = w.strings(&bytes0, tab);
+            if got.as_ref() != Some(want_names) {
+                o.fails.push(Fail::new(
+                    format!("walker:name-table-differs:{}", walk::name_str(tab)),
+                    format!("[built file] {} holds {:?} strings, {} were given", walk::name_str(tab), got.map(|g| g.len()), want_names.len()),
+                ));
+            }
+        }
+    }
+    let last_sub = w0.as_ref().and_then(|w| w.last_sub.clone());
+    let parsed0 = match parse_root(&bytes0, "built file", last_sub.as_deref()) {
         Ok(p) => p,
         Err(f) => {
             o.fails.push(f);
@@ -156,18 +224,24 @@ fn run_case(raw: &Case, rounds: u32) -> Outcome {
         }
         got0.retain(|k, _| !k.starts_with("mcnk["));
     }
-    let note = if parsed0.version < built_version { ":version-detected-lower" } else { "" };
-    o.fails.extend(content::diff("content", "build→parse", &want, &got0, note));
+    o.fails.extend(content::diff("content", "build→parse", &want, &got0, &bytes0, parsed0.version < built_version));
 
     // rounds of parse → from_root_adt → to_bytes
+    let do_trim = case.switches.trim_unbounded;
+    let rounds = if do_trim { rounds } else { rounds.min(2) };
     let mut prev_root = parsed0;
-    let mut prev_content = content::of_root(&prev_root);
     let mut prev_bytes = bytes0;
     let mut prev_sizes = w0.map(|w| w.sizes);
     let had_unbounded = o.fails.iter().any(|f| f.signature.starts_with("unbounded-read:"));
+    let mut prev_content;
     for r in 1..=rounds {
         let stage = format!("round {r}");
-        let root_clone = (*prev_root).clone();
+        let mut root_clone = (*prev_root).clone();
+        if do_trim && trim(&mut root_clone, &lens) {
+            o.trimmed = true;
+        }
+        // "same content" is judged against what goes into the rebuild
+        prev_content = content::of_root(&root_clone);
         let b = match guard("from_root_adt", || BuiltAdt::from_root_adt(root_clone, None).to_bytes()) {
             Err(f) => {
                 o.fails.push(f);
@@ -184,9 +258,10 @@ fn run_case(raw: &Case, rounds: u32) -> Outcome {
         };
         let (w, wf) = walk::check_file(&b, &stage);
         o.fails.extend(wf);
+        let last_sub = w.as_ref().and_then(|w| w.last_sub.clone());
         let sizes = w.map(|w| w.sizes);
         o.fails.extend(growth_fails(&stage, prev_bytes.len(), b.len(), prev_sizes.as_ref(), sizes.as_ref()));
-        let p = match parse_root(&b, &stage) {
+        let p = match parse_root(&b, &stage, last_sub.as_deref()) {
             Ok(p) => p,
             Err(mut f) => {
                 f.signature = format!("rebuild-{}", f.signature);
@@ -195,11 +270,10 @@ fn run_case(raw: &Case, rounds: u32) -> Outcome {
             }
         };
         let c = content::of_root(&p);
-        o.fails.extend(content::diff("rebuild", &stage, &prev_content, &c, ""));
+        o.fails.extend(content::diff("rebuild", &stage, &prev_content, &c, &b, false));
         o.rounds_done = r;
         let same = b == prev_bytes;
         prev_root = p;
-        prev_content = c;
         prev_bytes = b;
         prev_sizes = sizes;
         if same {
@@ -209,10 +283,14 @@ fn run_case(raw: &Case, rounds: u32) -> Outcome {
         }
     }
 
-    // the documented modify workflow: AdtBuilder::from_parsed(root).build() (one round). Skipped
-    // when the parse already returned out-of-chunk garbage (same root cause, other symptom).
-    if !had_unbounded && o.rounds_done > 0 {
-        let root_clone = (*prev_root).clone();
+    // the documented modify workflow: AdtBuilder::from_parsed(root).build() (one round). Without
+    // trimming it is skipped when the parse returned out-of-chunk garbage (same root cause, other symptom).
+    if (do_trim || !had_unbounded) && o.rounds_done > 0 {
+        let mut root_clone = (*prev_root).clone();
+        if do_trim {
+            trim(&mut root_clone, &lens);
+        }
+        let prev_content = content::of_root(&root_clone);
         match guard("from_parsed", || AdtBuilder::from_parsed(root_clone).build().and_then(|b| b.to_bytes())) {
             Err(f) => o.fails.push(f),
             Ok(Err(e)) => o.fails.push(Fail::new(
@@ -222,10 +300,11 @@ fn run_case(raw: &Case, rounds: u32) -> Outcome {
             Ok(Ok(b)) => {
                 let (w, wf) = walk::check_file(&b, "from_parsed");
                 o.fails.extend(wf);
+                let last_sub = w.as_ref().and_then(|w| w.last_sub.clone());
                 let sizes = w.map(|w| w.sizes);
                 o.fails.extend(growth_fails("from_parsed", prev_bytes.len(), b.len(), prev_sizes.as_ref(), sizes.as_ref()));
-                match parse_root(&b, "from_parsed") {
-                    Ok(p) => o.fails.extend(content::diff("rebuild", "from_parsed", &prev_content, &content::of_root(&p), "")),
+                match parse_root(&b, "from_parsed", last_sub.as_deref()) {
+                    Ok(p) => o.fails.extend(content::diff("rebuild", "from_parsed", &prev_content, &content::of_root(&p), &b, false)),
                     Err(mut f) => {
                         f.signature = format!("rebuild-{}", f.signature);
                         o.fails.push(f);
@@ -250,11 +329,16 @@ fn account(check: &Check, label: &str, raw: &Case, o: &Outcome) -> Option<Fail> 
     if let Some(v) = &o.version_note {
         check.bump(&format!("version_detected_differs:{v}"), 1);
     }
+    check.bump(&format!("names_style:{}", raw.name_style), 1);
+    check.bump(&format!("float_class:{}", raw.float_class), 1);
     if o.reached_compare {
         check.bump("cases_compared", 1);
         check.bump(&format!("rounds_completed:{}", o.rounds_done), 1);
         if o.fixpoint {
             check.bump("byte_fixpoint_reached", 1);
+        }
+        if o.trimmed {
+            check.bump("cases_with_until_eof_fields_trimmed_before_rebuild", 1);
         }
     } else {
         check.bump("cases_stopped_before_compare", 1);
@@ -268,7 +352,9 @@ fn account(check: &Check, label: &str, raw: &Case, o: &Outcome) -> Option<Fail> 
             if !pt::suppressed() {
                 check.known_hit(&f.signature, &f.message);
             }
-        } else if check.already_reported(&f.signature) {
+        } else if !pt::suppressed() && check.already_reported(&f.signature) {
+            // (while proptest shrinks / re-runs its minimal case the verdict must not depend on
+            // what other workers reported meanwhile, or the re-run would look flaky)
             check.bump("repeat_violation_hits", 1);
         } else if first.is_none() {
             first = Some(f.clone());
@@ -495,6 +581,24 @@ fn canaries() -> Vec<(String, Case)> {
                 g.push((format!("{vn}/canary-{name}"), c));
             }
         }
+        if v >= 2 {
+            // no MFBO given (from_root_adt invents one when the detected version is ≥ TBC)
+            let mut c = base_case(v, 9400 + v as u64, &Switches { trim_unbounded: true, ..off.clone() });
+            c.chunks = vec![shape(|s| s.heights = true)];
+            c.mamp = true;
+            g.push((format!("{vn}/canary-no-mfbo"), c));
+        }
+        if v >= 3 {
+            // faithful rounds, nothing trimmed: the until-EOF reads make the file grow
+            let mut c = base_case(v, 9500 + v as u64, &off);
+            c.chunks = vec![shape(|s| s.heights = true), shape(|s| s.layers = 2)];
+            c.mfbo = true;
+            c.mtxf = 1;
+            c.mamp = true;
+            c.mtxp = 2;
+            c.blend = 2;
+            g.push((format!("{vn}/canary-untrimmed"), c));
+        }
         if v >= 5 {
             let mut c = base_case(v, 9300, &off);
             c.blend = 2;
@@ -590,11 +694,18 @@ fn main() {
         check.inconclusive("essential grid classes missing");
     }
 
-    // 2. random volume
-    let n_small = check.tier.pick(2400u32, 60_000);
-    let n_big = check.tier.pick(160u32, 4_000);
-    for (label, n, big, shrink) in [("random", n_small, false, 600u32), ("random-big", n_big, true, 150)] {
-        let sw = sw.clone();
+    // 2. random volume. "random" / "random-big": every exclusion switch on. "random-unsteered":
+    // the switches whose findings do not stop the rest of the oracle are off (MCRF, split extras,
+    // MFBO, blend without MTXP), so those regions are still explored with all other clauses live.
+    let soft_off = Switches { no_mcrf: false, no_split_extras: false, mop_blend_needs_mtxp: false, tbc_plus_always_mfbo: false, ..Switches::all_on() };
+    let n_small = check.tier.pick(12_000u32, 300_000);
+    let n_big = check.tier.pick(600u32, 15_000);
+    let n_unsteered = check.tier.pick(3_000u32, 80_000);
+    for (label, n, big, shrink, sw) in [
+        ("random", n_small, false, 600u32, sw.clone()),
+        ("random-big", n_big, true, 150, sw.clone()),
+        ("random-unsteered", n_unsteered, false, 600, soft_off),
+    ] {
         pt::run(
             &check,
             label,
